@@ -116,9 +116,10 @@ pub fn gen(prop: &str, seed: u64, index: u64, _tier: Tier) -> Case {
     let a = analyze(&project);
     let (inputs, recursive) = gen::gen_inputs(&mut prng, &a, false);
     let mut params = BTreeMap::new();
-    let kind = if prop == "C08" { "crash" } else { "errno" };
+    let kind = if prop == "C08" || prop == "C09" { "crash" } else { "errno" };
     let mode = if kind == "crash" {
-        *rng.pick(&["build", "build", "needed"])
+        // any interrupted run, not only a build, may have left the tree as it is
+        *rng.pick(&["build", "build", "build", "needed", "needed", "verify-fresh", "clean"])
     } else {
         *rng.pick(&["build", "build", "needed", "needed", "verify-fresh", "verify-tampered", "clean"])
     };
@@ -338,6 +339,7 @@ struct PointResult {
     after: Snap,
     repair_codes: Vec<i32>,
     repaired: Option<Snap>,
+    twin_needed: Option<Snap>,
 }
 
 pub fn run(case: &Case, ctx: &mut Ctx) -> CaseOutcome {
@@ -541,6 +543,7 @@ pub fn run(case: &Case, ctx: &mut Ctx) -> CaseOutcome {
             for l in lanes.iter().take(LANES) {
                 let (queue, res, image, a, inv) = (&queue, &res, &image, &a, &inv);
                 let (kind, repair, inputs) = (kind.clone(), repair.clone(), inputs.clone());
+                let twin = prop == "C09";
                 sc.spawn(move || loop {
                     let pt = match queue.lock().unwrap().pop() {
                         Some(p) => p,
@@ -556,7 +559,22 @@ pub fn run(case: &Case, ctx: &mut Ctx) -> CaseOutcome {
                     let after = tree::snapshot(&l.root);
                     let mut repair_codes = vec![];
                     let mut repaired = None;
-                    if kind == "crash" && fired {
+                    let mut twin_needed = None;
+                    if kind == "crash" && fired && twin {
+                        // C09: from the tree the kill left, --needed and a normal build agree
+                        let mk = |m: ModeS| Inv {
+                            mode: m,
+                            inputs: inputs.clone(),
+                            recursive,
+                            tn,
+                            k: repair_k,
+                        };
+                        repair_codes.push(run_plain(l, &mk(ModeS::Needed)).unwrap_or(-1));
+                        twin_needed = Some(tree::snapshot(&l.root));
+                        l.reset(&after);
+                        repair_codes.push(run_plain(l, &mk(ModeS::Build)).unwrap_or(-1));
+                        repaired = Some(tree::snapshot(&l.root));
+                    } else if kind == "crash" && fired {
                         let mk = |m: ModeS| Inv {
                             mode: m,
                             inputs: inputs.clone(),
@@ -577,6 +595,7 @@ pub fn run(case: &Case, ctx: &mut Ctx) -> CaseOutcome {
                         after,
                         repair_codes,
                         repaired,
+                        twin_needed,
                     });
                 });
             }
@@ -595,7 +614,35 @@ pub fn run(case: &Case, ctx: &mut Ctx) -> CaseOutcome {
         ctx.stats.nontrivial.insert(mix(&[out.digest, crate::rng::hash_str(&r.point.spell())]));
         let mut fail: Option<(&str, String)> = None;
         let at = format!("{} of {} #{} ({} run, -j 1, pre-state {pre})", r.point.what, r.point.call, r.point.k, mode_s);
-        if kind == "crash" {
+        if kind == "crash" && prop == "C09" {
+            // C09: same verdict and same bytes from --needed as from a normal build
+            if let (Some(n), Some(b), [cn, cb]) = (&r.twin_needed, &r.repaired, r.repair_codes.as_slice()) {
+                if *cn == -9999 || *cb == -9999 {
+                    // a hang is not C09's subject
+                } else if (*cn == 0) != (*cb == 0) {
+                    out.violate(
+                        "C09",
+                        "needed-verdict-differs",
+                        format!("from the tree left by {at}: --needed exits {cn}, a normal build exits {cb}"),
+                    );
+                } else if *cb == 0 {
+                    for g in &products {
+                        if tree::file_bytes(n, g) != tree::file_bytes(b, g) {
+                            out.violate(
+                                "C09",
+                                "needed-bytes-differ",
+                                format!(
+                                    "from the tree left by {at}: {g} is {:?} after --needed and {:?} after a normal build",
+                                    tree::file_bytes(n, g).map(preview),
+                                    tree::file_bytes(b, g).map(preview)
+                                ),
+                            );
+                            break;
+                        }
+                    }
+                }
+            }
+        } else if kind == "crash" {
             // C08: the build after the kill gives what the build from a pristine tree gives
             let last = r.repair_codes.last().copied().unwrap_or(-1);
             if last == -9999 {
